@@ -156,3 +156,71 @@ Theorem C06_generated_body_iteration_is_model :
       /\ Forall (fun c => c <> [] /\ zlen c <= 1024) chunks.
 Proof. exact gen_ibytesio_iter_eq. Qed.
 Print Assumptions C06_generated_body_iteration_is_model.
+
+(* ---- a response object answers at most once (model/Emit.v): the object
+   carries a flag; a call emits (start_response through __start_response__,
+   then the body of __end_of_response__, both arbitrary effects [start] /
+   [finish] on the rest of the state, each of which may raise) only while
+   the flag is unset and sets it in every outcome.  For every number of
+   calls on a fresh object exactly the first one emits -- the state after
+   n+1 calls is the state after ONE emission, so no Content-Length/body pair
+   is ever sent twice --, and every later call raises
+   RuntimeError('Response can be used only once!'), whatever the first did. *)
+Require Import PW.model.Emit.
+Theorem C06_response_answers_once :
+  forall (St X B : Type) (start : St -> St * option X)
+         (finish : St -> St * (B + X)) n s,
+    Emit.calls St X B start finish (S n) {| Emit.done := false; Emit.rest := s |}
+    = ({| Emit.done := true;
+          Emit.rest := fst (Emit.emit St X B start finish s) |},
+       snd (Emit.emit St X B start finish s)
+       :: repeat (Fails (RuntimeError "Response can be used only once!")) n).
+Proof. exact Emit.answers_once. Qed.
+Print Assumptions C06_response_answers_once.
+
+(* ---- translator tie: [call_once] above equals the statement term that
+   harness/py2v_call.py generates from the current poorwsgi/response.py
+   BaseResponse.__call__ (gen/CallGen.v, rewritten on every check run) under
+   the statement semantics of lib/PyCall.v (if / raise / try-finally /
+   attribute store / self-method calls), for every object state and every
+   pair of effects, including the paths on which an effect raises; likewise
+   Declined.__call__ (no start_response call, object untouched, `()`) and
+   BaseResponse.__end_of_response__ (no effect, b''), and the inheritance
+   facts that make these the methods that run (Declined -> NoContentResponse
+   -> BaseResponse, neither redefining the other entry points). *)
+Require Import PW.lib.PyCall PW.gen.CallGen PW.proofs.CallGenEq.
+Theorem C06_generated_response_call_is_model :
+  forall (St X B : Type) (start : St -> St * option X)
+         (finish : St -> St * (B + X)) (o : Emit.obj St),
+    PyCall.run St X B start finish gen_response_call o
+    = (fst (Emit.call_once St X B start finish o),
+       PyCall.of_result X B (snd (Emit.call_once St X B start finish o))).
+Proof. exact gen_response_call_eq. Qed.
+Print Assumptions C06_generated_response_call_is_model.
+
+Theorem C06_generated_declined_call_is_model :
+  forall (St X B : Type) (start : St -> St * option X)
+         (finish : St -> St * (B + X)) (o : Emit.obj St),
+    PyCall.run St X B start finish gen_declined_call o
+    = (Emit.declined_call St o, PyCall.Ret PyCall.VTuple0).
+Proof. exact gen_declined_call_eq. Qed.
+Print Assumptions C06_generated_declined_call_is_model.
+
+Theorem C06_generated_base_end_is_model :
+  forall (St X B : Type) (start : St -> St * option X)
+         (finish : St -> St * (B + X)) (o : Emit.obj St),
+    PyCall.run St X B start finish gen_base_end o
+    = (o, PyCall.Ret (PyCall.VBytes [])).
+Proof. exact gen_base_end_eq. Qed.
+Print Assumptions C06_generated_base_end_is_model.
+
+Theorem C06_generated_call_resolution_is_model :
+  gen_response_call_arity = 2%nat /\
+  gen_bases_BaseResponse = [] /\
+  gen_bases_NoContentResponse = ["BaseResponse"] /\
+  gen_bases_Declined = ["NoContentResponse"] /\
+  gen_own_definitions = [("NoContentResponse", "__call__", 0%nat);
+                         ("NoContentResponse", "__end_of_response__", 0%nat);
+                         ("Declined", "__end_of_response__", 0%nat)].
+Proof. split; [exact gen_response_call_arity_eq | exact gen_call_resolution_eq]. Qed.
+Print Assumptions C06_generated_call_resolution_is_model.
